@@ -228,6 +228,8 @@ int as_setjmp_stub(struct __jmp_buf_tag *env) {
     }
     return 0;
 }
+static int as_truthy(Janet x) { return !(x.type == JANET_NIL || (x.type == JANET_BOOLEAN && !(x.as.u64 & 0x1))); }
+static int as_isint(Janet x) { return x.type == JANET_NUMBER && x.as.number >= -2147483648.0 && x.as.number <= 2147483647.0 && x.as.number == (double)(int32_t) x.as.number; }
 int as_verify_stub(JanetFuncDef *def) {
     __CPROVER_assert(def == as_def, "asm1: the definition being built is the one verified");
     as_verify_calls++;
@@ -253,6 +255,19 @@ int as_verify_stub(JanetFuncDef *def) {
                      def->symbolmap_length == as_listcount(K_SYMBOLMAP) &&
                      def->defs_length == (as_field[K_CLOSURES].type != JANET_NIL ? as_listcount(K_CLOSURES) : as_listcount(K_DEFS)),
                      "asm1: constants, environments, symbol map and nested definitions have the lengths of the description's lists");
+    /* C09 (asm . disasm round trip): the header of the definition is what the description says - written from the documented
+     * meaning of the keys (janet/asm docstring), not from the order of the statements in janet_asm1 */
+    {
+        int va = as_truthy(as_field[K_VARARG]), sa = as_truthy(as_field[K_STRUCTARG]);
+        int32_t ar = as_isint(as_field[K_ARITY]) ? (int32_t) as_field[K_ARITY].as.number : 0;
+        __CPROVER_assert(((def->flags & JANET_FUNCDEF_FLAG_VARARG) != 0) == va && ((def->flags & JANET_FUNCDEF_FLAG_STRUCTARG) != 0) == sa,
+                         "asm1: the vararg / structarg flags are set exactly when :vararg / :structarg are truthy");
+        __CPROVER_assert(def->arity == ar && def->arity >= 0, "asm1: arity is :arity (0 when absent) and not negative");
+        __CPROVER_assert(def->min_arity == (as_isint(as_field[K_MINARITY]) ? (int32_t) as_field[K_MINARITY].as.number : ar) &&
+                         def->max_arity == (as_isint(as_field[K_MAXARITY]) ? (int32_t) as_field[K_MAXARITY].as.number : ar) &&
+                         def->min_arity <= ar && def->max_arity >= ar, "asm1: min-arity <= arity <= max-arity, defaulting to arity");
+        __CPROVER_assert((int64_t) def->slotcount >= (int64_t) ar + va, "asm1: slotcount covers the parameters (arity, plus the rest tuple of a vararg function)");
+    }
     as_snap = *def;
     as_verdict = nd_int();
     return as_verdict;
